@@ -41,7 +41,8 @@ RULE = ("(1) primitives of the model against CPython: bytes.decode(enc,'replace'
         "exporters on stub cells carrying every Python type the code tests for (None, int, float, bytes, bytearray, str) x "
         "consistent and inconsistent serial types x three encodings, rows compared object for object with export.row; the real "
         "write_commit of the four exporters on stub commits (header rows, one row per cell, group order, refused page types) "
-        "against csvCommit/xlsxCommit/sqliteCommit/textCommit; the CREATE TABLE column names of the SQLite export. "
+        "against csvCommit/xlsxCommit/sqliteCommit/textCommit; the complete CREATE TABLE and INSERT statements of the SQLite "
+        "export (quoted identifiers, names with spaces, quotes, keywords), the XLSX sheet title and the CSV file name. "
         "(3) real databases / WAL histories built by SQLite holding the value grid (one single-row database per value and "
         "encoding, multi-column tables, indexes, WITHOUT ROWID, short rows after ADD COLUMN, updates, deletes, carved "
         "cells): the four real exporters are run, the files read back with csv / sqlite3 / openpyxl / a text parser, every "
@@ -53,7 +54,7 @@ ASSUMPTIONS = [
     "csv.writer / csv.reader, openpyxl 3.1.5 and sqlite3 are trusted: the model ends at the objects handed to them; what they do with those objects is observed by running them, never proved",
     "repr(float) is Python's (parameter fs of the model); REAL values are compared by bit pattern",
     "CPython's utf-8 / utf-16 codecs with errors='replace' are modelled and tied by correspondence only",
-    "table and column names are plain identifiers: CREATE TABLE / INSERT in the SQLite export interpolate names unquoted and that is not exercised",
+    "XLSX sheet titles longer than 31 characters (shortened by the exporter) are not modelled and not generated",
 ]
 TRUSTED_EXTRA = [
     "csv, openpyxl, sqlite3 (writers and readers) and Python's float repr: outside the model; the readers used by this check are part of its trusted base",
@@ -170,7 +171,7 @@ TEXTS = ["", "a", "hello world", "NULL", "0", "0.0", "b''", "None", "1e5",
          'quo"te', '"', "it's", "com,ma", "a, b", ", ", "par)en", "(x)", "x).", "line\nbreak", "cr\rlf\r\nend", "\r", "tab\there",
          "\x00", "nul\x00mid", "\x01\x02", "\x0b\x0c", "\x1f", "\x7f", "\x85", "\u0080\u009f", "﷐", "￾￿",
          "\U0001fffe", "\U0010ffff", "=\x01",
-         "naïve café", "日本語テキスト", "emoji 😀", "𝔘𝔫𝔦", "﻿bom", "trailing ", " leading", "x" * 300]
+         "naïve café", "日本語テキスト", "emoji 😀", "𝔘𝔫𝔦", "﻿bom", "trailing ", " leading", "x" * 300, "y" * 32768]
 BLOBS = [b"", b"\x00", b"abc", b"'", b'"', b"'\"", b"\\", b"\t\n\r", bytes(range(256)), b"=1", b"\xff\xfe", b"NULL"]
 RAW_TEXT = {
     "UTF-8": [b"\xff", b"\xc3", b"a\xe2\x82", b"\xed\xa0\x80", b"\xf4\x90\x80\x80", b"\xc0\xaf", b"ok\x80"],
@@ -323,6 +324,12 @@ def iface(ctx):
     objs = [None, 0, -7, 2 ** 63 - 1, 0.0, -0.0, 1.5, 1e300, float("inf"), "", "a", 'q"u', "a,b", "l\nb", "é😀", " =x", "\r"]
     fields = csv_roundtrip(objs)
     ctx.differential([(f"export.written csv {obj(o)} {fs_arg([o])}", "ok " + cphex(f)) for o, f in zip(objs, fields)], "iface-csv")
+    objs3 = [None, "", "a", " =x", "é😀", 5]
+
+    def xcell(v):
+        return "empty" if v is None else ("string " + cphex(v) if isinstance(v, str) else "number " + obj(v))
+    ctx.differential([(f"export.stored xlsx {obj(o)}", "ok " + xcell(w)) for o, w in zip(objs3, xlsx_roundtrip(objs3, ctx._c11_scratch.path("iface.xlsx")))],
+                     "iface-xlsx")
     objs2 = [None, 0, -7, 2 ** 63 - 1, 0.0, 1.5, b"", b"ab", bytearray(b"x"), memoryview(b"yz"), "", "a", "é😀", "=x"]
     ctx.differential([(f"export.stored sqlite {obj(o)}", "ok " + s) for o, s in zip(objs2, sqlite_roundtrip(objs2))], "iface-sqlite")
 
@@ -458,13 +465,14 @@ def stub_headers(ctx):
 
     class _Conn:
         def __init__(self):
-            self.stmts = []
+            self.stmts, self.inserts, self.entries = [], [], []
 
         def execute(self, s):
             self.stmts.append(s)
 
         def executemany(self, s, e):
-            pass
+            self.inserts.append(s)
+            self.entries.append(e)
 
         def commit(self):
             pass
@@ -483,16 +491,18 @@ def stub_headers(ctx):
         name = "t"
 
     defs_list = [["a", "b"], [], ["sd_version"], ["sd_version", "sd_sd_version", "x"], ["sd_row_id", "sd_file_offset"],
-                 ["sd_sd_sd_page_number", "sd_page_number", "sd_sd_page_number"], ["version", "Version", "sd_Version"]]
-    for defs in defs_list:
+                 ["sd_sd_sd_page_number", "sd_page_number", "sd_sd_page_number"], ["version", "Version", "sd_Version"],
+                 ["a b", 'q"uote', "semi;colon", "select", "é", ""]]
+    tnames = ["tbl", "my table", 'q"t', "sqlite_sequence", "a/b", "x]y"]
+    for k, defs in enumerate(defs_list):
         for pt, pt_name, ncell in ((PAGE_TYPE.B_TREE_TABLE_LEAF, "tableLeaf", 0), (PAGE_TYPE.B_TREE_INDEX_LEAF, "indexLeaf", 3),
                                    (PAGE_TYPE.B_TREE_INDEX_LEAF, "indexLeaf", 0)):
             for iso in (False, True):
+                tname = tnames[(k + int(iso)) % len(tnames)]
                 mse = _MSE()
-                mse.name = "tbl"
+                mse.name = tname
                 mse.column_definitions = [_CD(n) for n in defs]
-                if iso is not None:
-                    mse.internal_schema_object = iso
+                mse.internal_schema_object = iso
                 cm = _Commit()
                 cm.page_type = pt
                 cells = {1: _Cell([(1, 1)] * ncell)}
@@ -503,16 +513,70 @@ def stub_headers(ctx):
                 ex._master_schema_entries_created_tables = {}
                 try:
                     ex.write_commit(mse, cm)
-                    m = re.match(r"CREATE TABLE (\S+) \((.*)\)$", ex._connection.stmts[0])
-                    got_name, got_cols = m.group(1), m.group(2).split(" ,")
-                    impl = "ok " + ",".join(cphex(c) for c in got_cols)
-                    impl_name = "ok " + cphex(got_name)
+                    impl = "ok " + cphex(ex._connection.stmts[0])
+                    impl_ins = "ok " + cphex(ex._connection.inserts[0])
+                    nrow = len(ex._connection.entries[0][0])
                 except Exception as e:  # noqa
-                    impl = impl_name = "err " + classify(e)
+                    impl = impl_ins = "err " + classify(e)
+                    nrow = 0
                 names = ",".join(cphex(n) for n in defs) or "none"
-                cases.append((f"export.headers sqlite {pt_name} {ncell} {names}", impl))
-                cases.append((f"export.tablename {int(iso)} {cphex('tbl')}", impl_name))
+                cases.append((f"export.create {int(iso)} {cphex(tname)} {pt_name} {ncell} {names}", impl))
+                if impl_ins.startswith("ok"):
+                    cases.append((f"export.insert {int(iso)} {cphex(tname)} {nrow}", impl_ins))
     ctx.differential(cases, "headers")
+
+
+def sheet_title(name):
+    """mirror used only to find the sheet in the workbook; tied to the exporter and the model by stub_names"""
+    return re.sub(r"[\\*?:/\[\]]", "_", name)
+
+
+def stub_names(ctx, sc):
+    """XLSX sheet title and CSV file name derived from the table / index name by the real write_commit"""
+    cases = []
+
+    class _WB:
+        def __init__(self):
+            self.names = []
+
+        def create_sheet(self, name):
+            self.names.append(name)
+            return _Collector()
+
+    class _MSE:
+        column_definitions = []
+
+    class _Commit:
+        updated = True
+        file_type = "F"
+        database_text_encoding = "utf-8"
+        page_type = PAGE_TYPE.B_TREE_INDEX_LEAF
+        added_cells, updated_cells, deleted_cells, carved_cells = {}, {}, {}, {}
+
+    d = sc.path("stubnames")
+    os.makedirs(d, exist_ok=True)
+    for name in ["t", "my table", 'q"t', "a/b", "a\\b", "x[1]", "what?", "a*b:c", "é 日本", "sd_ x"]:
+        cm = _Commit()
+        cm.name = name
+        cm.added_cells = {0: _Cell([], row_id=None)}
+        ex = CommitXlsxExporter.__new__(CommitXlsxExporter)
+        ex._workbook, ex._sheets, ex._long_sheet_name_translation_dictionary, ex._xlsx_file_name = _WB(), {}, {}, "x"
+        try:
+            ex.write_commit(_MSE(), cm)
+            impl = "ok " + cphex(ex._workbook.names[0])
+        except Exception as e:  # noqa
+            impl = "err " + classify(e)
+        cases.append((f"export.sheettitle {cphex(name)}", impl))
+        assert sheet_title(name) == (ex._workbook.names[0] if ex._workbook.names else sheet_title(name))
+        exc = CommitCsvExporter(d, "p")
+        try:
+            exc.write_commit(_MSE(), cm)
+            fn = os.path.basename(exc.csv_file_names[name])
+            impl = "ok " + cphex(fn[2:-4]) if fn.startswith("p-") and fn.endswith(".csv") else "ok ?" + fn
+        except Exception as e:  # noqa
+            impl = "err " + classify(e)
+        cases.append((f"export.csvstem {cphex(name)}", impl))
+    ctx.differential(cases, "names")
 
 
 def stub_commits(ctx, sc):
@@ -967,7 +1031,7 @@ class FileCheck:
         for mse, commits, recs in self.all_records():
             if not any(c.updated for c in commits):
                 continue
-            ws = wb[mse.name]
+            ws = wb[sheet_title(mse.name)]
             rows = [list(r) for r in ws.iter_rows(values_only=True)]
             data = [r for r in rows[1:] if any(x is not None for x in r)]   # index sheets get an empty row per later commit
             rt = cached_roundtrip("xlsx", lambda objs: xlsx_roundtrip(objs, self.sc.path("rt.xlsx")))
@@ -1075,6 +1139,10 @@ class FileCheck:
             reason = "text-as-blob"
         elif fmt == "xlsx" and isinstance(v, (int, float)) and (written is None or isinstance(written, (int, float))):
             reason = "number-carrier"
+        elif fmt == "xlsx" and isinstance(written, str) and isinstance(expected, str) and len(expected) > 32767 \
+                and len(written) == 32767 and any(written == SC.ILLEGAL_XML_CHARACTER_PATTERN.sub(" ", e)[:32767]
+                                                  for e in (expected, " " + expected)):
+            reason = "cell-length"
         elif fmt == "xlsx" and isinstance(written, str) and isinstance(expected, str) and "\r" in expected \
                 and written.replace(" ", "") == SC.ILLEGAL_XML_CHARACTER_PATTERN.sub(" ", expected if not expected.startswith("=") else " " + expected).replace("\r\n", "\n").replace("\r", "\n").replace(" ", ""):
             reason = "carriage-return"
@@ -1277,6 +1345,30 @@ def files(ctx, sc):
         keep_unlisted(ctx, n0, db, wal)
         ctx.branch(f"tabledb:{enc_name}:{'wal' if with_wal else 'db'}:{'all' if unsafe else 'safe'}")
         k += 1
+    # table, index and column names that need quoting / sanitising in the SQLite export, the CSV file name, the sheet title
+    for enc_name in (ENCS if ctx.thorough() else ["UTF-8"]):
+        path = sc.path("names.db")
+        for sfx in ("", "-wal", "-shm", "-journal"):
+            if os.path.exists(path + sfx):
+                os.unlink(path + sfx)
+        con = connect(path, enc_name)
+        con.execute('CREATE TABLE "my tbl" ("a b" INTEGER, "semi;colon" TEXT, "select")')
+        con.execute('INSERT INTO "my tbl" VALUES (1, \'x\', 2.5)')
+        con.execute('CREATE INDEX "i x" ON "my tbl" ("a b")')
+        con.execute('CREATE TABLE "a/b" (v)')
+        con.execute('INSERT INTO "a/b" VALUES (\'slash\')')
+        con.execute('CREATE TABLE "what?[1]" ("é")')
+        con.execute('INSERT INTO "what?[1]" VALUES (x\'00\')')
+        con.close()
+        n0 = len(ctx.oracle_failures)
+        try:
+            fc = FileCheck(ctx, sc, path, None, {"tag": "names", "encoding": enc_name})
+        except Exception as e:  # noqa  (parsing quoted identifiers in the schema SQL is C07's business)
+            ctx.branch("namesdb-unreadable:" + classify(e))
+            continue
+        fc.run()
+        keep_unlisted(ctx, n0, path)
+        ctx.branch("namesdb")
     # random histories of the shared generator (its text pool contains '' and '=SUM(A1)')
     for j in range(90 if ctx.thorough() else 3):
         cfg = F.random_cfg(ctx.rng, page_sizes=[1024, 4096], small=True)
@@ -1299,6 +1391,7 @@ def files(ctx, sc):
 
 def run(ctx):
     sc = C.Scratch()
+    ctx._c11_scratch = sc
     try:
         prim_decode(ctx)
         prim_repr(ctx)
@@ -1306,6 +1399,7 @@ def run(ctx):
         iface(ctx)
         stub_rows(ctx)
         stub_headers(ctx)
+        stub_names(ctx, sc)
         stub_commits(ctx, sc)
         files(ctx, sc)
         ctx.extra["exhaustive_parts"] = getattr(ctx, "exhaustive_parts", [])
@@ -1343,39 +1437,10 @@ def replay(ctx, data):
 
 
 # ------------------------------------------------------------------------------ known findings
-FALSY = {"int:0", "real:0", "real:%d" % fbits(-0.0), "text:-", "blob:-"}
 
 
 def _case(f):
     return f.get("case") or {}
-
-
-def m_empty_text_index_error(f):
-    c = _case(f)
-    return (f["kind"] == "never-fails" and c.get("fmt") in ("csv", "xlsx") and c.get("exc") == "indexError"
-            and c.get("has_empty_text") is True)
-
-
-def m_text_falsy_null(f):
-    c = _case(f)
-    if c.get("fmt") != "text":
-        return False
-    if f["kind"] == "value-altered":
-        return c.get("reason") == "falsy-null" and c.get("value") in FALSY and c.get("written") == "NULL"
-    if f["kind"] == "indistinct":
-        return c.get("written") == "NULL" and all(v in FALSY or v == "null" for v in c.get("pair", []))
-    return False
-
-
-def m_sqlite_text_as_blob(f):
-    c = _case(f)
-    if c.get("fmt") != "sqlite":
-        return False
-    if f["kind"] == "value-altered":
-        return c.get("reason") == "text-as-blob" and str(c.get("value", "")).startswith("text:")
-    if f["kind"] == "indistinct":
-        return sorted(c.get("pair", [])) == ["blob:-", "text:-"] and c.get("written") == "blob:-"
-    return False
 
 
 def m_xml_scrub(f):
@@ -1424,15 +1489,12 @@ def m_xlsx_carrier(f):
             if v.startswith("real:"):
                 x = unbits(int(v[5:]))
                 return x != x or abs(x) == float("inf") or float("%.16g" % x) != x
-        if c.get("reason") == "carriage-return":
+        if c.get("reason") in ("carriage-return", "cell-length"):
             return True
     return False
 
 
 MATCHERS = {
-    "empty_text_index_error": m_empty_text_index_error,
-    "text_falsy_null": m_text_falsy_null,
-    "sqlite_text_as_blob": m_sqlite_text_as_blob,
     "xml_scrub": m_xml_scrub,
     "sheet_null_empty_text": m_sheet_null_empty_text,
     "text_unquoted": m_text_unquoted,
